@@ -369,6 +369,9 @@ impl Searcher {
         // by repetition and as a key into the transposition table
         let state_hash = hasher.hash(game_state);
 
+        #[cfg(weechess_verif)]
+        verif::trace_node(state_hash, current_depth, max_depth, alpha, beta);
+
         // Early check for draws by repetition
         if current_depth > 0 && state_history.lookup(&state_hash).is_some() {
             // We're just going to pretend that a one-fold repitition is a draw for simplicity
@@ -949,6 +952,26 @@ pub mod verif {
         if n >= CANCEL_AT.load(Ordering::SeqCst) {
             token.cancel();
         }
+    }
+
+    static TRACE_ON: AtomicBool = AtomicBool::new(false);
+    static TRACE: std::sync::Mutex<Vec<(u64, usize, usize, i32, i32)>> = std::sync::Mutex::new(Vec::new());
+
+    /// Called once per node of `analyze_recursive`, after the hash is known; records
+    /// (hash, current_depth, max_depth, alpha, beta) when tracing is switched on.
+    pub(super) fn trace_node(hash: u64, current_depth: usize, max_depth: usize, alpha: eval::Evaluation, beta: eval::Evaluation) {
+        if TRACE_ON.load(Ordering::Relaxed) {
+            TRACE.lock().unwrap().push((hash, current_depth, max_depth, i32::from(alpha), i32::from(beta)));
+        }
+    }
+
+    pub fn set_tracing(on: bool) {
+        TRACE_ON.store(on, Ordering::SeqCst);
+        TRACE.lock().unwrap().clear();
+    }
+
+    pub fn take_trace() -> Vec<(u64, usize, usize, i32, i32)> {
+        std::mem::take(&mut *TRACE.lock().unwrap())
     }
 
     pub fn nodes_entered() -> usize {
